@@ -107,6 +107,7 @@ static inline FlexPath* make_flexpath(Tag tag0, Tag tag1) {
     f->segment(Vec2{4, 0}, NULL, NULL, false);
     f->segment(Vec2{4, 3}, NULL, NULL, false);
     f->scale_width = true;   // widths follow magnifications (the Python default)
+    f->elements[1].end_type = EndType::HalfWidth;   // a cap whose length follows the (scaled) width
     return f;
 }
 static inline RobustPath* make_robustpath(Tag tag0, Tag tag1) {
@@ -117,6 +118,7 @@ static inline RobustPath* make_robustpath(Tag tag0, Tag tag1) {
     r->segment(Vec2{4, 0}, NULL, NULL, false);
     r->segment(Vec2{4, 3}, NULL, NULL, false);
     r->scale_width = true;
+    r->elements[1].end_type = EndType::HalfWidth;   // a cap whose length follows the (scaled) width
     return r;
 }
 static inline Label* make_label(Tag tag) {
